@@ -334,6 +334,18 @@ namespace rpc
             d()->process_field((buffer&)x);
         }
 
+        // aligned fields of an embedded Message are visited by the archive itself
+        // (the aligned filter only sees the top-level fields): treat them as plain ones
+        void process_field(aligned_buffer& x)
+        {
+            d()->process_field((buffer&)x);
+        }
+
+        void process_field(aligned_iovec_array& x)
+        {
+            d()->process_field((iovec_array&)x);
+        }
+
         void process_field(iovec_array& x)
         {
             assert("must be re-implemented in derived classes");
